@@ -19,6 +19,12 @@ Variants ==
   \cup {[diagram |-> "timeseries", argv |-> <<"-m", "timeseries">>, m |-> "", axis |-> "no"]}
   \cup {[diagram |-> "error", argv |-> <<"-m", "error">>, m |-> "", axis |-> "no"]}          \* (the error diagram takes no -x: one point per input)
   \cup {[diagram |-> "performance", argv |-> <<"-m", "performance", "-x", a, "-r", "2", "-simple">>, m |-> "", axis |-> a] : a \in {"leadtime", "location"}}
+  \* third tranche
+  \cup {[diagram |-> x, argv |-> <<"-m", x, "-r", "2", "-b", b>>, m |-> "", axis |-> b] : x \in {"droc", "droc0"}, b \in {"above", "below="}}
+  \cup {[diagram |-> "change", argv |-> <<"-m", "change", "-r", "-3,-1,0,1,3">>, m |-> "", axis |-> "no"]}
+  \cup {[diagram |-> x, argv |-> <<"-m", x, "-x", a, "-simple">>, m |-> "", axis |-> a] : x \in {"autocov", "autocorr"}, a \in {"leadtime", "time"}}
+  \cup {[diagram |-> "taylor", argv |-> <<"-m", "taylor">>, m |-> "", axis |-> "no"], [diagram |-> "taylor", argv |-> <<"-m", "taylor", "-x", "leadtime">>, m |-> "", axis |-> "leadtime"]}
+  \cup {[diagram |-> "fss", argv |-> <<"-m", "fss", "-x", "leadtime", "-r", "2", "-b", b>>, m |-> "", axis |-> b] : b \in {"above", "below="}}
 ExprSeqJ(s) == s
 SeriesJ(ss) == [k \in DOMAIN ss |-> [label |-> ss[k].label, x |-> ss[k].x, y |-> ss[k].y]]
 SeriesOf(X, v) ==
@@ -37,6 +43,13 @@ SeriesOf(X, v) ==
     [] v.diagram = "timeseries" -> TimeSeriesSeries(X)
     [] v.diagram = "error" -> ErrorSeries(X, v.axis)
     [] v.diagram = "performance" -> PerformanceSeries(X, v.axis, "above", R(2))
+    [] v.diagram = "droc" -> DRocSeries(X, v.axis, R(2), DRocFths(R(2)))
+    [] v.diagram = "droc0" -> DRocSeries(X, v.axis, R(2), <<R(2)>>)
+    [] v.diagram = "change" -> ChangeSeries(X, <<R(-3), R(-1), R(0), R(1), R(3)>>)
+    [] v.diagram = "autocov" -> AutoSeries(X, "cov", v.axis)
+    [] v.diagram = "autocorr" -> AutoSeries(X, "corr", v.axis)
+    [] v.diagram = "taylor" -> TaylorSeries(X, v.axis)
+    [] v.diagram = "fss" -> FssSeries(X, v.axis, R(2))
 Usable(x) == ~EmptySelection(DsOfSmall(x), x.opt)
 Emit == LET X == Context(Ds, gen.opt) IN
         PrintT(ToJson([inputs |-> [j \in DOMAIN Ds.inputs |-> InputJson(Ds.inputs[j])], hasClim |-> FALSE, clim |-> InputJson(Ds.clim), climType |-> "subtract",
